@@ -880,11 +880,12 @@ Section ValueIndependence.
 
   (* exactness of the computed values when no hazard is flagged *)
   Lemma binval_exact op a b L x y :
-    loop_dtype op a b = Some L -> arith op && negb (is_float L) = false ->
+    loop_dtype op a b = Some L -> arith op && negb (dt_eqb L DF64) = false ->
     binval V fop wrap op L x y = fop op x y.
   Proof.
     intros HL Hf. destruct op; cbn in Hf; unfold binval;
-      try (apply wrap_float; destruct (is_float L); [reflexivity|discriminate]).
+      try (apply wrap_float; destruct (dt_eqb L DF64) eqn:E; [|discriminate];
+           apply dt_eqb_eq in E; subst; reflexivity).
     - apply wrap_float. eapply loop_truediv_float. exact HL.
     - reflexivity.
   Qed.
